@@ -198,7 +198,7 @@ def applications():
         for name in ("BVRol", "BVRor", "BVZExt", "BVSExt", "BVRepeat"):
             for k in ks:
                 yield (name, (t,), (k,), lambda m, a, nm=name, k=k: getattr(m, nm)(a[0], k),
-                       sig_indexed(name, [t], (k,)), name != "BVRepeat" or k > 1)
+                       sig_indexed(name, [t], (k,)), name != "BVRepeat" or k != 1)
         for s in ks:
             for e in ks:
                 yield ("BVExtract", (t,), (s, e), lambda m, a, s=s, e=e: m.BVExtract(a[0], s, e),
